@@ -315,6 +315,10 @@ def run(chk):
                 else:
                     chk.fail("C09:populate-raised", "a population raised " + pop["error"],
                              {"kind": "flow", "case": c, "population": pi})
+            elif pop.get("empty_pool"):
+                chk.count("flow:empty-pool-after-max_samples-break")
+                if not (c["acc"] and c["max_samples"] is not None):
+                    chk.fail("C09:pool-size", "a population ended with an empty pool", {"kind": "flow", "case": c, "population": pi})
             elif pop.get("cap"):
                 kind = 2
                 chk.count("flow:still-looping-at-cap")
@@ -341,7 +345,7 @@ def run(chk):
                                cL(map(cN, ids))))
             else:
                 plain.append(cT(cB(strict), minlq, cN(c["N"]), bl, cN(kind), cL(map(cN, ids))))
-            if kind == 0:
+            if kind == 0 and not pop.get("empty_pool"):
                 first_row = pop["draws"][0][0]
                 perm = pop["perm_after_first"] + [first_row]
                 if all(r_ >= 0 for r_, _ in pop["draws"]):
@@ -516,7 +520,7 @@ def replay(data):
             support = {x[0]: (x[3] and fin(x[4])) for x in cands}
             if "error" in pop:
                 fails.append(("C09:populate-raised", pop["error"]))
-            elif not pop.get("cap"):
+            elif not pop.get("cap") and not pop.get("empty_pool"):
                 fails += check_pool(pop, support, c["N"], not (c["acc"] and c["max_samples"] is not None))
     elif kind == "rej" and "error" not in res:
         cands = [x for b in res["batches"] for x in b]
